@@ -5,6 +5,7 @@ pub mod proj;
 pub mod rec;
 pub mod run;
 pub mod trace;
+pub mod watch;
 
 pub use ovi::{instrument, NodeInfo, OvI};
 pub use proj::ToProj;
